@@ -19,7 +19,7 @@ func init() {
 			"Non-trivial: the two operands are different corpus entries; distinct by (expression, operands, mode)",
 		Run:          runC12,
 		Replay:       replayC12,
-		MinExercised: map[string]int64{"model": 20000, "trichotomy": 2000, "duality": 2000, "unions": 2000, "transitive": 1, "null": 100, "crosstype": 1000, "sequence.lax": 100, "sequence.strict": 100, "startswith": 500, "startswith.sequence": 500, "likeregex": 2000, "cmp.model": 2000, "cmp.antisym": 1000, "cmp.coherent": 1000},
+		MinExercised: map[string]int64{"model": 20000, "trichotomy": 2000, "duality": 2000, "unions": 2000, "transitive": 1, "null": 100, "crosstype": 1000, "sequence.lax": 100, "sequence.strict": 100, "startswith": 500, "sequence.long": 2000, "startswith.sequence": 500, "likeregex": 2000, "cmp.model": 2000, "cmp.antisym": 1000, "cmp.coherent": 1000},
 		Assumptions: []string{
 			"numbers get a by-value verdict only where the value is unambiguous in the given representation (int64-range integers, finite doubles, json.Numbers whose text is exactly one of those); other json.Numbers are exercised for totality only",
 			"equal instants of time-with-zone values are ordered by offset; the direction is not pinned, only consistency (antisymmetry)",
@@ -449,6 +449,71 @@ func runC12(c *h.Ctx) {
 		}
 	}
 
+	// long sequences (hundreds of item pairs), one numeric value present in a
+	// different representation on either side
+	for li, n := range []int{16, 255, 256, 300, 1000} {
+		if !c.Mine(li) {
+			continue
+		}
+		mk := func(repr string, lo, cnt int) []any {
+			out := make([]any, cnt)
+			for i := range out {
+				switch repr {
+				case "f64":
+					out[i] = float64(lo + i)
+				case "num":
+					out[i] = json.Number(fmt.Sprint(lo + i))
+				case "numf":
+					out[i] = json.Number(fmt.Sprintf("%d.0", lo+i))
+				default:
+					out[i] = int64(lo + i)
+				}
+			}
+			return out
+		}
+		for _, lr := range []string{"i64", "f64", "num", "numf"} {
+			for _, rr := range []string{"i64", "f64", "num", "numf"} {
+				x := mk(lr, 0, n)
+				for _, y := range [][]any{mk(rr, n-1, 1), mk(rr, n+5, 1), mk(rr, n-1, 16), mk(rr, 2*n, 16)} {
+					for _, op := range cmpOpsAll {
+						for _, form := range []string{"$x[*] " + op + " $y[*]", "strict $y[*] " + op + " $x[*]", "$x[*] " + op + " 7.0", "7 " + op + " $x[*]"} {
+							p := cachedPath(form)
+							if p == nil {
+								continue
+							}
+							o := h.Call("query", p, "doc", h.Opts{Vars: map[string]any{"x": x, "y": y}})
+							c.Eval(1)
+							ll, rl := x, y
+							if strings.Contains(form, "$y[*] "+op) {
+								ll, rl = y, x
+							}
+							if strings.HasSuffix(form, " 7.0") {
+								rl = []any{7.0}
+							}
+							if strings.HasPrefix(form, "7 ") {
+								ll, rl = []any{int64(7)}, x
+							}
+							want := model.False
+							for _, a := range ll {
+								for _, b := range rl {
+									if t, _ := model.Compare(op, a, b); t == model.True {
+										want = model.True
+									}
+								}
+							}
+							got, isErr, ok := triOf(o)
+							if !ok || isErr || got != want {
+								c.Violate("sequence.long", h.F("op", op, "left", lr, "right", rr, "pairs>=256", fmt.Sprint(len(ll)*len(rl) >= 256)), fmt.Sprintf("%s with %d x %d numbers (%s vs %s, right side from %v) = %s; some pair satisfies it: %v", form, len(ll), len(rl), lr, rr, rl[0], o.Summary(), want), h.Case{Kind: "sequence-long", Path: form})
+							} else {
+								c.Held("sequence.long")
+							}
+							c.Distinct("long", form, lr, rr, fmt.Sprint(n, len(y), y[0]))
+						}
+					}
+				}
+			}
+		}
+	}
 	// starts with
 	strs := []string{"", "a", "ab", "abc", "b", "A", "é", "é", "\U0001F600x", "\U0001F600", "aé", "a\nb", "ab ", " ab", "10", "1"}
 	idx := 0
@@ -535,8 +600,10 @@ func runC12(c *h.Ctx) {
 	}
 
 	// like_regex vs Go regexp under the translated flags
-	subjects := []string{"", "a", "A", "abc", "ABC", "a\nb", "a\nB", "ab\n", "\nb", "a.c", "axc", "a+b", "aab", "12", "x12y", "é", "É", "(a)", "a|b", "b", "a\\b", " a ", "a.c\nA.C"}
-	patterns := []string{"^a", "a$", "a.c", "^$", "A", "b$", "^b", ".", "a|b", "(ab)+", "[0-9]+", "\\d", "^.*$", "a.b", "^a.b$", "é", "a+b", "\\(a\\)", "a\\.c", "", "^a$", "c$", "\\s", "(?i)a", "^B", "a\\\\b", "[[:alpha:]]+", "x*", "(a|b)c?", "^.+$"}
+	subjects := []string{"", "a", "A", "abc", "ABC", "a\nb", "a\nB", "ab\n", "\nb", "a.c", "axc", "a+b", "aab", "12", "x12y", "é", "É", "(a)", "a|b", "b", "a\\b", " a ", "a.c\nA.C",
+		// case folding is not lower-casing: final sigma, long s, micro sign, dotted capital I, Kelvin sign, sharp s
+		"ς", "σ", "Σ", "ſ.", "s.", "µ", "μ", "İ", "i", "I", "ı", "K", "k", "ß", "SS", "ǅ", "ǆ"}
+	patterns := []string{"^a", "a$", "a.c", "^$", "A", "b$", "^b", ".", "a|b", "(ab)+", "[0-9]+", "\\d", "^.*$", "a.b", "^a.b$", "é", "a+b", "\\(a\\)", "a\\.c", "", "^a$", "c$", "\\s", "(?i)a", "^B", "a\\\\b", "[[:alpha:]]+", "x*", "(a|b)c?", "^.+$", "σ", "ς", "s.", "μ", "i", "k", "ss", "ǆ", "İ"}
 	flagSets := []string{"", "i", "s", "m", "q", "is", "im", "sm", "iq", "ism", "ismq", "sq", "mq"}
 	idx = 0
 	for _, pat := range patterns {
